@@ -158,6 +158,7 @@ func runC07(x *simkit.Exec) {
 	// one client, with an index cache and lazily expanded postings. What the narrow calls leave in the caches
 	// is keyed by the selectors alone (the label calls add their own `label != ""` matcher to the key).
 	var narrowFirst *query
+	var narrowNames []string
 	if x.Bool("narrowLabelCallsFirst", 1, 3) {
 		if ms, b, sp := lazyFriendlyMatchers(x, ds, "nlf"); ms != nil {
 			total := int64(ds.NumSlots) * ds.SlotLen
@@ -175,6 +176,7 @@ func runC07(x *simkit.Exec) {
 				narrow.MinT, narrow.MaxT = last+1, b.MaxT-1
 			}
 			narrowFirst = &narrow
+			sp.Lset.Range(func(l labels.Label) { narrowNames = append(narrowNames, l.Name) })
 			pool = []query{wide}
 			npool = 1
 			plans = [][]int{{0}}
@@ -239,11 +241,7 @@ func runC07(x *simkit.Exec) {
 			q := pool[qi]
 			if narrowFirst != nil {
 				n := *narrowFirst
-				var names []string
-				for _, m := range n.Matchers {
-					names = append(names, m.Name)
-				}
-				names = append(names, "__name__")
+				names := narrowNames // the label names of the series the selectors were built from
 				for _, name := range names {
 					_, err := g.store.LabelValues(ctx, &storepb.LabelValuesRequest{Label: name, Start: n.MinT, End: n.MaxT, Matchers: toPBMatchers(n.Matchers)})
 					s.Note("%s narrow LabelValues(%s) err=%v", actor, name, err != nil)
